@@ -620,6 +620,7 @@ class Exec:
                     raise Unsupported("range step must be a non-zero constant")
                 s3 = s2.fork()
                 s3.vars[node.target.id] = a
+                s3.undefined = s3.undefined - {node.target.id}
                 res.append((s3, ("range", node.target.id, a.t, b.t, cs.as_long())))
             return res
         if isinstance(it, ast.Call) and isinstance(it.func, ast.Name) and it.func.id == "zip" and len(it.args) == 2:
@@ -795,6 +796,7 @@ class Exec:
         for c, hs in conds:
             # exit path
             ex = hs.assume(z3.Not(c))
+            ex = self.ghost_calls(spec.get("exit_calls", []), ex)  # ghost lemma instances on the exhausted-loop path
             if getattr(node, "orelse", None):
                 outs.extend(self.block(node.orelse, ex))
             else:
@@ -1471,10 +1473,17 @@ class Exec:
             return out
         if name == "copy" and not args:
             return [(VSeq(recv.kind, recv.t, fresh=True), st)]
+        if name == "encode" and recv.kind == "str":
+            # text.encode("utf-16-le"): the byte sequence of the UTF-16 units, an uninterpreted
+            # function of the string constrained by the sidecar's (trusted, A7) axioms
+            if not (len(args) == 1 and isinstance(args[0], ast.Constant) and args[0].value == "utf-16-le") or "ub" not in api.ABSTRACT:
+                raise Unsupported("str.encode other than encode('utf-16-le') with a declared abstract ub")
+            return [(VSeq("list[int]", self.ctx.abstract_fn("ub")(recv.t), fresh=True), st)]
         if name == "startswith" and recv.kind == "str":
             for vals, s in self.ev_list(list(args), st):
                 p = vals[0] if isinstance(vals[0], VSeq) else str_const(vals[0].s)
-                out.append((VBool(z3.PrefixOf(p.t, recv.t)), s))
+                fn = self.ctx.funcs.setdefault("prefix_of", z3.Function("prefix_of", IntSeq, IntSeq, BOOL))
+                out.append((VBool(fn(p.t, recv.t)), s))  # uninterpreted; see Pure.prefix_of
             return out
         raise Unsupported(f"list/str method {name}")
 
@@ -1512,6 +1521,9 @@ class Exec:
         return env
 
     def call_contract(self, cc: api.Contract, vals, kwvals, st: St):
+        self.cur = st
+        # ghost lemma / axiom instances placed right before calls of this callee (calls_func)
+        st = self.ghost_calls(self.c.calls_func.get(cc.qualname, []), st)
         self.cur = st
         params = self.bind_params(cc, vals, kwvals, st)
         pre_env = Env({**params, "trace": VSeq("list[int]", st.trace)}, st.heap)
